@@ -8,6 +8,7 @@
    non-encrypted encoded header, the RNG (any stream).  Confidentiality of AES-CBC itself is outside the model:
    the theorems say that contents reach the file ONLY through the cipher, they do not say the cipher is good. *)
 From P7 Require Import Prelude PyPrims Number Crc32 Header Aes Enc EncProofs.
+From P7 Require PwInj.
 Open Scope Z_scope.
 
 (* ---------------------------------------------------------------------------------------------- *)
@@ -364,3 +365,20 @@ Theorem C11_encrypted_header_without_crc_refuted :
   open_encrypted_header (toyK ex_K') 4096 ex_iv ex_hcipher (blen ex_hraw) None = Ok (mkHeader None None []).
 Proof. exact encrypted_header_without_crc_refuted. Qed.
 Print Assumptions C11_encrypted_header_without_crc_refuted.
+
+(* ---- the password is hashed as the UTF-16LE code units of the string exactly as given: the
+   encoding is injective, so no two different strings (a password and its NFC/NFD/NFKC form, a
+   case-folded variant, ...) ever hash the same message -- a reader that accepted the normalised
+   form of the password, or a writer that normalised it before deriving the key (seeded change
+   C07-10), would not be the key derivation C11_kdf_message states.  Enc.pw_utf16 is
+   str.encode("utf-16LE") (FilesGen.py_encode_utf16le_eq over the translated write_utf16;
+   prims.py against CPython); the harness reads and writes with a non-normalised password and
+   offers its normal forms as wrong passwords. ---- *)
+Theorem C11_password_exact_code_units : forall (s t : list Z) (b : bytes),
+  pw_utf16 s = Ok b -> pw_utf16 t = Ok b -> s = t.
+Proof. exact PwInj.pw_utf16_injective. Qed.
+Print Assumptions C11_password_exact_code_units.
+
+Example C11_password_nfc_nfd_differ :
+  pw_utf16 [233] = Ok [233; 0] /\ pw_utf16 [101; 769] = Ok [101; 0; 1; 3].
+Proof. exact PwInj.pw_utf16_nfc_nfd_differ. Qed.
